@@ -218,6 +218,9 @@ func concJobs(d *DAG, th bool) []driver.Job {
 		conc{"delete-races-push", "oci", []Op{push(0), push(1), push(2)}, [][]Op{{del(2)}, {push(3)}}},
 		conc{"delete-races-tag", "oci", []Op{push(0), push(1), push(2)}, [][]Op{{del(2)}, {tag(2, "a")}}},
 		conc{"delete-races-delete", "oci", []Op{push(0), push(1), push(2), tag(2, "a")}, [][]Op{{del(2)}, {del(2)}, {Op{Kind: "untag", Ref: "a"}}}},
+		// garbage collection against a push that is then tagged: the tagged manifest's content must be there
+		// afterwards, or the tag must have been refused (pushed, collected, then tagged)
+		conc{"gc-races-push-tag", "oci", []Op{push(0), push(1), push(2), tag(2, "t")}, [][]Op{{Op{Kind: "gc"}}, {push(3), tag(3, "a")}}},
 		conc{"untag-races-retag", "oci", []Op{push(0), push(1), push(2), push(3), tag(2, "a")}, [][]Op{{Op{Kind: "untag", Ref: "a"}}, {tag(3, "a")}}},
 	)
 	var out []driver.Job
